@@ -261,6 +261,7 @@ inductive Val
   | jl (v : List Lean.Json)           -- InterfaceListCol
   | cv (names values : List String)   -- custom variables
   | crash (why : String)              -- the Go getter would panic here
+  | emptyList (text : String)         -- `Column.GetEmptyValue` of a list-typed column whose reference is missing
   deriving Inhabited
 
 /-- zero value of a freshly made `DataRow` slot -/
@@ -274,16 +275,14 @@ def DataType.zero : DataType → Val
   | .ifaceList => .jl []
   | .customVar => .cv [] []
 
-/-- `Column.GetEmptyValue` after the getter's conversion -/
+/-- `Column.GetEmptyValue` after the getter's conversion; for list types the placeholder keeps the text
+    `fmt.Sprintf("%v", …)` gives it (`GetString` of a missing reference) -/
 def DataType.emptyVal : DataType → Val
   | .str | .strLarge => .s ""
   | .json => .s "{}"
   | .int | .int64 => .i (-1)
   | .float => .f (-1000)
-  | .strList => .sl []
-  | .int64List => .il []
-  | .svcMemberList => .ml []
-  | .ifaceList => .jl []
-  | .customVar => .cv [] []
+  | .strList | .int64List | .svcMemberList | .ifaceList => .emptyList "[]"
+  | .customVar => .emptyList "map[]"
 
 end Lmd
